@@ -34,8 +34,7 @@ fn literal_matches(exp: &J, got: &Value) -> Result<(), String> {
 /// structural comparison of a parsed tree with the spec's tree
 pub fn tree_matches(exp: &J, got: &Expr) -> Result<(), String> {
     let k = exp["k"].as_str().ok_or("TOOL: tree without kind")?;
-    let gm = expr_to_model(got);
-    let gk = gm["k"].as_str().unwrap_or("?").to_string();
+    let gk = expr_kind(got);
     if gk != k {
         return Err(format!("node kind {gk}, expected {k}"));
     }
@@ -168,6 +167,60 @@ pub fn replay_parse(case: &J, rep: &mut Report) {
 pub fn replay_parse_again(case: &J, rep: &mut Report) {
     if let Ok(text) = uncps(&case["text"]) {
         replay_parse_once(case, &text, rep, ":again");
+    }
+}
+
+/// parse a text the parser rejects, then an accepted one: the second result is still the prescribed one
+pub fn replay_parse_after(rejected: &J, accepted: &J, rep: &mut Report, as_rule: bool) {
+    if let (Ok(r), Ok(a)) = (uncps(&rejected["text"]), uncps(&accepted["text"])) {
+        if as_rule {
+            let _ = catch_unwind(AssertUnwindSafe(|| Rule::parse(&r)));
+        } else {
+            let _ = catch_unwind(AssertUnwindSafe(|| Expr::parse(&r)));
+        }
+        replay_parse_once(accepted, &a, rep, ":after-a-rejected-text");
+    }
+}
+
+/// eight threads parse the first 600 texts of the batch at full speed, at the same time: no panic, and the same verdict
+/// (accepted / rejected) as prescribed - whatever the parser shares between calls must be safe to share between threads
+pub fn hammer(batch: &[String], rep: &mut Report) {
+    let cases: Vec<(String, bool)> = batch.iter().take(600).filter_map(|l| crate::parse_case_line(l).ok())
+        .filter_map(|c| Some((uncps(&c["text"]).ok()?, c["x"]["ok"].as_bool()?))).collect();
+    if cases.len() < 2 {
+        return;
+    }
+    let bad: std::sync::Mutex<Option<(String, String)>> = std::sync::Mutex::new(None);
+    std::thread::scope(|sc| {
+        for t in 0..8usize {
+            let cases = &cases;
+            let bad = &bad;
+            std::thread::Builder::new().stack_size(1 << 28).spawn_scoped(sc, move || {
+                for k in 0..cases.len() {
+                    // every parse is of a text never seen before (a trailing comment unique to thread and step: layout
+                    // does not change the verdict of an accepted text)
+                    let (base, ok) = &cases[(k * 7 + t * 13) % cases.len()];
+                    let text = &format!("{base}\n//{t}_{k}");
+                    let why = match catch_unwind(AssertUnwindSafe(|| Expr::parse(text).is_ok())).map_err(panic_msg) {
+                        Err(p) => Some(format!("Expr::parse panicked while other threads were parsing: {p}")),
+                        Ok(false) if *ok => Some("Expr::parse rejected, while other threads were parsing, an accepted text followed by a comment line".to_string()),
+                        Ok(_) => None,
+                    };
+                    if let Some(w) = why {
+                        let mut b = bad.lock().unwrap();
+                        if b.is_none() {
+                            *b = Some((text.clone(), w));
+                        }
+                        return;
+                    }
+                }
+            }).expect("spawn");
+        }
+    });
+    rep.evaluations += 8 * cases.len();
+    if let Some((text, why)) = bad.into_inner().unwrap() {
+        let kind = if why.contains("panicked") { "panic" } else { "differs" };
+        rep.mismatch(&format!("parse:concurrent:{kind}"), json!({"engine": "parse", "text": text, "why": why}));
     }
 }
 
